@@ -166,6 +166,20 @@ def sc_fallback(d, n, nq, normal, partial=False):
                 d.prove(d.eq(v, 1.0), "fallback_std_is_one_with_less_than_two_labels")
             else:
                 d.prove(d.le(0, v), "fallback_std_non_negative")
+    # sample_y of the wrapper falls back as well: shape (n_query, n_samples), reproducible for a fixed random_state
+    if normal:
+        seed = d.integer("seed", 0, 2 ** 31 - 2)
+        try:
+            s1 = reg.sample_y(Xq, n_samples=2, random_state=seed)
+            s2 = reg.sample_y(Xq, n_samples=2, random_state=seed)
+        except (core.Unencodable, core.PathAbort):
+            raise
+        except Exception as e:
+            d.prove(False, "sample_y_falls_back_instead_of_failing", info=dict(error=repr(e)[:200]))
+            return
+        d.prove(tuple(np.shape(s1)) == (nq, 2), "fallback_sample_y_shape", info=dict(shape=tuple(np.shape(s1))))
+        if tuple(np.shape(s1)) == tuple(np.shape(s2)):
+            d.prove(d.eq_arr(s1, s2), "fallback_sample_y_reproducible_for_fixed_random_state")
     d.witness(len(lab) == 0, "no_labels")
 
 
